@@ -58,6 +58,8 @@ def structure(line):
     line = line.rstrip(" \t")
     if line.endswith(";"):
         line = line[:-1]          # an empty comment says nothing: dropping its semicolon is not a loss
+    # the exponent mark of a number (-125e-3, 1E3) is number notation, which formatting may rewrite (-0.125): not a letter
+    line = re.sub(r"(?<=[0-9.,])[eE](?=[-+]?[0-9])", "", line)
     return "".join(ch for ch in line if ch.isalpha() or ch in "@={}()[]|;*!\"")
 
 
